@@ -166,6 +166,7 @@ class Universe:
         self.classes: Dict[str, type] = {}
         self.feature_group_of: Dict[str, str] = {}
         self.fail: Set[Tuple[str, str]] = set()          # (group, feature) -> raise in calculate_feature
+        self.fail_exc: Any = RuntimeError                # class of the injected calculation fault (ConnectionError, TimeoutError, ...)
         self.fail_once: Set[Tuple[str, str]] = set()     # transient fault: raise only the FIRST time that calculation is executed
         self.fail_once_hits: Dict[Tuple[str, str], int] = {}   # executions of a fail_once calculation that reached the fault point
         self.fail_validate_in: Set[str] = set()
@@ -218,7 +219,7 @@ class Universe:
                 uni.listener.on_enter(gname, names, [], None, features)
                 for n in names:
                     if uni.should_fail(gname, n):
-                        raise RuntimeError(f"VERIF-FAULT calc {gname}.{n}")
+                        raise uni.fail_exc(f"VERIF-FAULT calc {gname}.{n}")
                 out = native_table(uni._cfw_name_of(cls, features), {k: list(v) for k, v in data.items()})
                 uni.listener.on_exit(gname, names)
                 return out
@@ -235,7 +236,7 @@ class Universe:
                 uni.listener.on_enter(gname, names, [], None, features)
                 for n in names:
                     if uni.should_fail(gname, n):
-                        raise RuntimeError(f"VERIF-FAULT calc {gname}.{n}")
+                        raise uni.fail_exc(f"VERIF-FAULT calc {gname}.{n}")
                 if g.get("delay_ms"):
                     import time as _t
                     _t.sleep(g["delay_ms"] / 1000.0)       # a slow source: everything that needs it is a LATE reader of the other data
@@ -276,7 +277,7 @@ class Universe:
                 n_rows = nrows(data)
                 for n in names:
                     if uni.should_fail(gname, n):
-                        raise RuntimeError(f"VERIF-FAULT calc {gname}.{n}")
+                        raise uni.fail_exc(f"VERIF-FAULT calc {gname}.{n}")
                     d = _f[n]
                     vals = [d["c0"]] * n_rows
                     for coef, inp in zip(d["coefs"], d["inputs"]):
